@@ -15,7 +15,7 @@ TEXT = {
          "AEAD is authenticated encryption by contract; bit-level corruption is represented by 'arbitrary bytes' and splicing classes, not by flipping real ciphertext bits."),
  "C06": ("For every DB method, with a sink whose every Write/Sync may fail: the audit record is written and synced (with the right fields) before any memory effect, save or disclosure; fail-closed; unchanged polls silent; WriteEntries error propagation.",
          "Non-interleaving of concurrent records rests on O_APPEND + one write(2) per Encode and is outside; only the open flags are checked (C05)."),
- "C09": ("DB.GetConditional from an arbitrary valid state and any V: not-changed iff active == V, else the active number with its bytes; absent -> not found.", "HTTP/client legs are added with C08's harnesses."),
+ "C09": ("DB.GetConditional from an arbitrary valid state and any V: not-changed iff active == V, else the active number with its bytes; absent -> not found.", "The handler's dispatch on Version/UpdateIfChanged is in C08's get harness; the network client (request shape, V=0 short-circuit, status mapping for every status code) and the file-backed client have their own harnesses here. The HTTP transport is a stub; a real round trip is outside."),
  "C07": ("acl.Secret.Match executed symbolically with symbolic pattern pieces and name; the regexp source it builds is parsed by the real regexp/syntax and the AST translated to an SMT regular expression; equivalence with the statement's glob semantics is one SMT query per star count. Rules.Allow/Rule.Allow against the exists-rule specification with Match uninterpreted.",
          "QuoteMeta's contract (its result matches exactly its argument) and the regexp matcher's conformance to its AST are assumed; code-point strings (valid UTF-8), pieces <= 3, names <= 8/12 code points, <= 2/3 stars."),
  "C08": ("The seven registered handlers (serveJSON instances, getIdentity) executed symbolically over a request/identity/database-outcome model: gates, identification before decoding, dispatch, outcome->status table, permissions and principal, no body in non-200 replies.",
